@@ -7,7 +7,7 @@ Spec    : spec/Lifecycle.tla - one context, sockets with their actors (core, lis
           CloseCleans under fairness of the actors only (no peer is ever assumed to answer).  Three switches
           describe the pinned revision (HandshakeDeaf, CheckThenWait, LateBlind): TLC must find the violation
           under each and none with all off.
-TLC     : exhaustive incl. liveness (1 socket, 2 tasks); thorough adds 2 sockets (safety, 27 M states).
+TLC     : exhaustive incl. liveness (1 socket, 2 tasks); thorough adds 2 sockets without application tasks (safety, 3.7 M states).
 Binding : B2 - WaitGroup::wait against the last done() at every scheduling point of the real code
           (controlled scheduler, hooks wg.wait.check / wg.wait.await).
           B3 - API histories on real sockets with close()/term() injected: blocked recv / send (no peer, full
